@@ -3,3 +3,4 @@
 -/
 import Demeter.AaveRisk.Basic
 import Demeter.AaveRisk.Liquidate
+import Demeter.AaveRisk.Ops
